@@ -88,6 +88,28 @@ pub fn replay_print(rep: &mut Report, rec: &J) {
 			rep.mismatch("C08.compact", json!({"what": "compact_print / Display / to_string / String::from differ from the minimal serialization", "vector": rec, "expected_text": exp, "observed": all}));
 		}
 	}
+	// the Print implementations of the component types and of references print the same text
+	let direct: Option<Result<String, String>> = match &v {
+		Value::Boolean(b) => Some(guarded(|| b.print_with(o.clone()).to_string())),
+		Value::Number(n) => Some(guarded(|| n.print_with(o.clone()).to_string())),
+		Value::String(s) => Some(guarded(|| s.print_with(o.clone()).to_string())),
+		_ => None,
+	};
+	let by_ref = guarded(|| (&&v).print_with(o.clone()).to_string());
+	rep.add("print_calls", 1 + direct.is_some() as u64);
+	for (how, r) in [("component type", direct), ("reference", Some(by_ref))] {
+		match r {
+			Some(Ok(t)) if t != exp => {
+				let aspect = if is_compact { "C08.compact" } else { "C13.layout" };
+				rep.mismatch(aspect, json!({"what": format!("Print of the {how} differs from the documented layout"), "vector": rec, "expected_text": exp, "observed_text": t}));
+			}
+			Some(Err(p)) => {
+				rep.mismatch("C13.panic", json!({"what": format!("printer of the {how} panicked"), "vector": rec, "panic": p}));
+				rep.mismatch("C04.panic", json!({"what": format!("printer of the {how} panicked"), "vector": rec, "panic": p}));
+			}
+			_ => (),
+		}
+	}
 	if o == Options::pretty() && v.pretty_print().to_string() != exp {
 		rep.mismatch("C13.layout", json!({"what": "pretty_print differs from print_with(pretty)", "vector": rec}));
 	}
